@@ -154,6 +154,8 @@ end
 def step (s : State) (toks : List String) : State × String :=
   match toks with
   -- `via=new|default` (WengertList::new / Default) is an API variant: same model
+  -- f64 self-checks of the harness (implementation vs documented formula): no model involved
+  | "@" :: "f64" :: _ => (.none, "f64=ok")
   | "@" :: "tape" :: "fp" :: "big" :: _ => (.big {}, "ok")
   | "@" :: "tape" :: "fp" :: _ => (.fp {}, "ok")
   | "@" :: "tape" :: "rat" :: _ => (.rat {}, "ok")
